@@ -100,6 +100,16 @@ Visible(cfg) == {e \in cfg : e.v # "emptymap"}
 AlgForeign(shape, cfg) == Foreign(shape, Visible(AfterSelection(shape, cfg)))
 AlgMissing(shape, cfg) == Missing(shape, Visible(AfterSelection(shape, cfg)))
 AlgOutcome(shape, cfg) == IF AlgForeign(shape, cfg) # {} \/ AlgMissing(shape, cfg) # {} THEN "err" ELSE "ok"
+\* The same per channel.  get_subcommands:706 takes as candidates the sub-commands whose value in the namespace IS a
+\* Namespace, and :722 deletes the extra sections only when there are SEVERAL candidates.  With defaults every
+\* sub-command has its namespace of defaults, so the sections that were not chosen always go; with defaults=False
+\* (nodef) only the sections the input itself carries are candidates: a lone section of a sub-command that was not
+\* chosen stays and is validated (the foreign key in it IS reported).
+SectionsGiven(shape, cfg) == {e.p[1] : e \in {x \in cfg : /\ Len(x.p) >= 1 /\ <<x.p[1]>> \in DOMAIN shape /\ shape[<<x.p[1]>>].kind = "sec"
+                                                          /\ (Len(x.p) >= 2 \/ x.v = "emptymap")}}
+AfterSelectionCh(shape, cfg, nodef) == IF nodef /\ Cardinality(SectionsGiven(shape, cfg)) < 2 THEN cfg ELSE AfterSelection(shape, cfg)
+AlgOutcomeCh(shape, cfg, nodef) == LET c == Visible(AfterSelectionCh(shape, cfg, nodef))
+                                   IN IF Foreign(shape, c) # {} \/ Missing(shape, c) # {} THEN "err" ELSE "ok"
 \* the outcome with the section deviation only (to tell the two findings apart)
 AlgOutcomeSel(shape, cfg) == IF Foreign(shape, AfterSelection(shape, cfg)) # {} \/ Missing(shape, AfterSelection(shape, cfg)) # {} THEN "err" ELSE "ok"
 
